@@ -53,7 +53,8 @@ func (f *frame) call(t *ssa.Call) {
 		return
 	}
 	if _, isClosure := c.Value.(*ssa.MakeClosure); isClosure {
-		abort("closure call")
+		f.havocCall(t, "call of a closure", args, true)
+		return
 	}
 	name := callee.String()
 	if callee.Origin() != nil {
@@ -74,6 +75,11 @@ func (f *frame) call(t *ssa.Call) {
 		return
 	}
 	why := "unspecified callee " + funcDisplayName(callee)
+	if !inModule && isPureExternal(callee) {
+		x.note("%s: result unconstrained, assumed to terminate without panic and without writing memory visible to the caller", why)
+		f.setFreshResult(t)
+		return
+	}
 	f.havocCall(t, why, args, inModule)
 }
 
@@ -147,7 +153,10 @@ func (f *frame) setFreshResult(t *ssa.Call) Val {
 		return f.vals[t]
 	}
 	v := x.freshVal("r_"+t.Name(), rt)
-	for _, fact := range x.wfFacts(rt, v.T, f.cur.heap.next) {
+	x.strictSlices = true
+	facts := x.wfFacts(rt, v.T, f.cur.heap.next)
+	x.strictSlices = false
+	for _, fact := range facts {
 		f.assume(fact)
 	}
 	f.vals[t] = v
@@ -398,6 +407,14 @@ func (f *frame) callByContract(t *ssa.Call, callee *ssa.Function, fc *FuncContra
 		if err != nil {
 			abort("ensures of %s (%s): %v", cname, e.Text, err)
 		}
+		f.assume(g)
+	}
+	for _, e := range fc.Assumes {
+		g, err := post.EvalBool(e.Expr)
+		if err != nil {
+			abort("assume of %s (%s): %v", cname, e.Text, err)
+		}
+		x.note("ASSUMED (not proved) about %s: %s", funcDisplayName(callee), e.Text)
 		f.assume(g)
 	}
 }
@@ -720,4 +737,52 @@ func (f *frame) valid(g Term) bool {
 	ob := &Obligation{PC: f.cur.pc, Goal: g, script: x.S, mark: x.S.Mark(), Expect: "unsat"}
 	r := Solve(ob.Query(), 3, false)
 	return r.Status == "unsat"
+}
+
+// isPureExternal lists library functions that do not write memory reachable from their arguments.
+func isPureExternal(fn *ssa.Function) bool {
+	if fn.Pkg == nil {
+		// methods of instantiated or synthetic packages: decide by the full name
+		return false
+	}
+	pkg := fn.Pkg.Pkg.Path()
+	name := fn.Name()
+	isMethod := fn.Signature.Recv() != nil
+	switch pkg {
+	case "strings", "strconv", "unicode", "unicode/utf8", "math/bits", "math", "sort", "path", "path/filepath":
+		return !isMethod && !strings.HasPrefix(name, "Append")
+	case "bytes":
+		if isMethod {
+			return false
+		}
+		switch name {
+		case "Equal", "Compare", "HasPrefix", "HasSuffix", "Contains", "Index", "IndexByte", "NewReader", "NewBuffer", "TrimSpace", "Trim":
+			return true
+		}
+	case "fmt":
+		switch name {
+		case "Sprintf", "Sprint", "Sprintln", "Errorf":
+			return true
+		}
+	case "errors":
+		return name == "New" || name == "Is" || name == "Unwrap"
+	case "encoding/hex":
+		return name == "EncodeToString" || name == "DecodeString" || name == "EncodedLen" || name == "DecodedLen"
+	case "encoding/base64", "encoding/base32":
+		switch name {
+		case "EncodeToString", "DecodeString", "EncodedLen", "DecodedLen", "WithPadding", "NewEncoding":
+			return true
+		}
+	case "github.com/snksoft/crc":
+		return name == "CalculateCRC"
+	case "crypto/sha256", "crypto/sha512", "crypto/md5":
+		return strings.HasPrefix(name, "Sum")
+	case "crypto/ed25519":
+		return name == "Verify" || name == "Sign" || name == "NewKeyFromSeed"
+	case "hash/crc32":
+		return name == "Checksum" || name == "MakeTable" || name == "ChecksumIEEE"
+	case "time":
+		return true
+	}
+	return false
 }
